@@ -297,10 +297,7 @@ def durable_execution(
             initial_checkpoint_token=invocation_input.checkpoint_token,
             operations={},
             service_client=service_client,
-            # If there are operations other than the initial EXECUTION one, current state is in replay mode
-            replay_status=ReplayStatus.REPLAY
-            if len(invocation_input.initial_execution_state.operations) > 1
-            else ReplayStatus.NEW,
+            replay_status=ReplayStatus.NEW,
         )
 
         execution_state.fetch_paginated_operations(
@@ -308,6 +305,11 @@ def durable_execution(
             invocation_input.checkpoint_token,
             invocation_input.initial_execution_state.next_marker,
         )
+
+        # Replay mode is decided from the whole history, not from the first page of it: the
+        # invocation payload may hold nothing but the EXECUTION operation while later pages hold
+        # completed operations.
+        execution_state.start_replay_if_history_has_completed_operations()
 
         durable_context: DurableContext = DurableContext.from_lambda_context(
             state=execution_state, lambda_context=context
